@@ -511,6 +511,9 @@ func ToActor(it Item) (*Actor, error) {
 
 // Equals verifies if our receiver Object is equals with the "with" Object
 func (a Actor) Equals(with Item) bool {
+	if IsNil(with) {
+		return false
+	}
 	result := true
 	err := OnActor(with, func(w *Actor) error {
 		_ = OnObject(a, func(oa *Object) error {
